@@ -223,12 +223,16 @@ def run(repo: Repo, rep: Report, tier: str) -> None:
     bad = [s for n in rel_nodes for s in ins.get(n.id, ()) if s[0] and not s[2]]
     rep.check(not bad, "collision", "acse.ACSE.negotiate_release", "released after a collision", "on a release collision the peer's request must be answered with A-RELEASE-RP before the association is reported released", mod=acse, node=nr)
     # requestor answers at once: inside `if primitive.result is None:` the requestor branch sends the response
-    col_if = [i for i in walk_no_nested(nr) if isinstance(i, ast.If) and norm(i.test) == "primitive.result is None"]
-    rep.need(col_if, "acse.negotiate_release: collision test vanished")
-    req_if = [i for i in ast.walk(col_if[0]) if isinstance(i, ast.If) and norm(i.test) == "self.assoc.is_requestor"]
+    from ..loader import oriented
+    col = [(i, oriented(i, "primitive.result is None")) for i in walk_no_nested(nr) if isinstance(i, ast.If)]
+    col = [(i, o) for i, o in col if o is not None]
+    rep.need(col, "acse.negotiate_release: collision test vanished")
+    col_if = [col[0][0]]
+    col_branch = ast.Module(body=list(col[0][1][0]), type_ignores=[])
+    req_if = [i for i in ast.walk(col_branch) if isinstance(i, ast.If) and norm(i.test) == "self.assoc.is_requestor"]
     okr = bool(req_if) and any(_is_answer(c) for s in req_if[0].body for c in ast.walk(s) if isinstance(c, ast.Call))
     rep.check(okr, "collision", "acse.ACSE.negotiate_release", "requestor answers the colliding request", "PS3.8 7.2.2.7: the association-requestor answers the colliding A-RELEASE-RQ first", mod=acse, node=col_if[0])
-    acc = [i for i in ast.walk(col_if[0]) if isinstance(i, ast.If) and norm(i.test) == "self.assoc.is_acceptor and is_collision"]
+    acc = [i for i in walk_no_nested(nr) if isinstance(i, ast.If) and norm(i.test) == "self.assoc.is_acceptor and is_collision"]
     oka = bool(acc) and any(_is_answer(c) for s in acc[0].body for c in ast.walk(s) if isinstance(c, ast.Call))
     rep.check(oka, "collision", "acse.ACSE.negotiate_release", "acceptor answers after the peer's response", "PS3.8 7.2.2.7: the association-acceptor answers after receiving the A-RELEASE-RP", mod=acse, node=col_if[0])
 
